@@ -103,6 +103,54 @@ theorem applyBatch_log_split (c : Cfg) (endT : Int) (force : Bool) (s : St) (gt'
       emitTimes_nil_of_owned _ (skipEvs_owned _ _), emitTimes_nil_of_owned _ (applyEvs_owned _ _)]
     rfl
 
+/-- a pass that applies no batch only polls and carries quiet processes along -/
+theorem iter_log_noBatch (c : Cfg) (endT : Int) (force : Bool) (s : St)
+    (h : fullStep (s.fronts.map (fun pf => (pf.1, poll c.beh s.gt endT force s.store pf.1 pf.2))) = none ∨
+      ∃ d, fullStep (s.fronts.map (fun pf => (pf.1, poll c.beh s.gt endT force s.store pf.1 pf.2))) = some d ∧
+        ¬ s.gt + d ≤ endT) :
+    ∃ Q, (iter c endT force s).log = s.log ++ Q ∧ ∀ e ∈ Q, ∃ p, owner e = some p := by
+  rcases h with h | ⟨d, h, hfit⟩
+  · refine ⟨((s.fronts.map (fun pf => (pf.1, poll c.beh s.gt endT force s.store pf.1 pf.2))).map
+        (fun po => po.2.evs)).flatten ++
+      ((s.fronts.map (fun pf => (pf.1, poll c.beh s.gt endT force s.store pf.1 pf.2))).map
+        (settleEv (nextEvent s.gt endT
+          ((s.fronts.map (fun pf => (pf.1, poll c.beh s.gt endT force s.store pf.1 pf.2))).map
+            (fun po => (po.1, po.2.front)))))).flatten, ?_, ?_⟩
+    · unfold iter; dsimp only; rw [h]; simp only [List.append_assoc]
+    · intro e he
+      rcases List.mem_append.mp he with h1 | h1
+      · exact pollEvs_owned c endT force s e h1
+      · exact skipEvs_owned _ _ e h1
+  · refine ⟨((s.fronts.map (fun pf => (pf.1, poll c.beh s.gt endT force s.store pf.1 pf.2))).map
+        (fun po => po.2.evs)).flatten ++
+      ((s.fronts.map (fun pf => (pf.1, poll c.beh s.gt endT force s.store pf.1 pf.2))).map
+        (settleEv endT)).flatten, ?_, ?_⟩
+    · unfold iter; dsimp only; rw [h]; simp only [hfit, if_false, List.append_assoc]
+    · intro e he
+      rcases List.mem_append.mp he with h1 | h1
+      · exact pollEvs_owned c endT force s e h1
+      · exact skipEvs_owned _ _ e h1
+
+/-- the batch part of an applying pass consists of process events only -/
+theorem applyBatch_log_owned (c : Cfg) (endT : Int) (force : Bool) (s : St) (gt' : Int) :
+    ∃ B, (applyBatch s
+      (s.fronts.map (fun pf => (pf.1, poll c.beh s.gt endT force s.store pf.1 pf.2))) gt').log =
+      s.log ++ B ∧ ∀ e ∈ B, ∃ p, owner e = some p := by
+  refine ⟨((s.fronts.map (fun pf => (pf.1, poll c.beh s.gt endT force s.store pf.1 pf.2))).map
+        (fun po => po.2.evs)).flatten ++
+      ((s.fronts.map (fun pf => (pf.1, poll c.beh s.gt endT force s.store pf.1 pf.2))).map
+        (settleEv gt')).flatten ++
+      (((s.fronts.map (fun pf => (pf.1, poll c.beh s.gt endT force s.store pf.1 pf.2))).map
+        (fun po => (po.1, settle gt' po.2))).filterMap (dueUpd gt')).map
+          (fun pdu => Ev.apply pdu.1 gt' pdu.2.1 pdu.2.2), ?_, ?_⟩
+  · rw [applyBatch_log]; simp only [List.append_assoc]
+  · intro e he
+    rcases List.mem_append.mp he with h1 | h1
+    · rcases List.mem_append.mp h1 with h2 | h2
+      · exact pollEvs_owned c endT force s e h2
+      · exact skipEvs_owned _ _ e h2
+    · exact applyEvs_owned _ _ e h1
+
 /-- **What one pass emits**: nothing, or exactly one row at the new global time (and only when a
 batch of updates was applied). -/
 theorem iter_emitTimes (c : Cfg) (endT : Int) (force : Bool) (s : St) :
